@@ -168,7 +168,7 @@ theorem readParse_sep {V : Type} (P : List Char → Option (V × Nat)) (sep : Ch
   have hne : tok.length ≠ (tok ++ sep :: L'.take (63 - tok.length)).length := by simp
   have hget : (tok ++ sep :: L'.take (63 - tok.length)).getD tok.length ' ' = sep := by
     simp [List.getD_eq_getElem?_getD]
-  simp [readSepBad, readShift, hne, hget, readCopyTo, readCopyFrom, readCopyDest, readBufidxShift,
+  simp [readSepBad, readShift, readLong, hne, hget, readCopyTo, readCopyFrom, readCopyDest, readBufidxShift,
     List.take_of_length_le]
 
 theorem readParse_last {V : Type} (P : List Char → Option (V × Nat)) (sep : Char) (tok : List Char) (v : V)
@@ -177,8 +177,9 @@ theorem readParse_last {V : Type} (P : List Char → Option (V × Nat)) (sep : C
   have hrs := hok [] (Or.inl rfl)
   simp only [List.append_nil] at hrs
   have hmin : min 64 tok.length = tok.length := by omega
+  have hk : ¬ (64 < tok.length) := by omega
   simp [readParse, shifted, readBufend, readSingleBegin, List.take_of_length_le hlen, hmin, hrs, readSepBad,
-    readShift, Reader.setBufidx, readBufidxElse]
+    readShift, readLong, hk, Reader.setBufidx, readBufidxElse]
 
 
 /-- one `read` of a token that is followed by the separator, from any canonical state -/
@@ -278,5 +279,152 @@ theorem nextLine_done (tail : List Char) (ht : TailOK tail) :
   rcases ht with rfl | ⟨t, rfl⟩
   · simp [nextLine, nextLineThrowsEvalsGetc, nextLineThrows]
   · simp [nextLine, nextLineThrowsEvalsGetc, nextLineThrows, IStream.get1, IStream.good, endCh]
+
+/-! ### comment skipping -/
+
+/-- comment lines `#body\n`, concatenated -/
+def commentText : List (List Char) → List Char
+  | [] => []
+  | b :: r => '#' :: b ++ '\n' :: commentText r
+
+theorem commentText_length (cs : List (List Char)) : cs.length ≤ (commentText cs).length := by
+  induction cs with
+  | nil => simp [commentText]
+  | cons b r ih => simp [commentText]; omega
+
+/-- the test `if (is.eof() || is.peek() == end) return;` followed by the loop: the shape of
+    `skip_comments` at its entry and again after every skipped comment line -/
+def afterTest (f : Nat) (r : Reader) (is : IStream) : Res Unit × Reader × IStream :=
+  let p := if !is.eof then is.peek else (none, is)
+  if is.eof || p.1 == some '\n' then (.ok (), r, p.2) else skipOuterLoop f r p.2
+
+theorem peek_rest (is : IStream) : is.peek.2.rest = is.rest := by
+  unfold IStream.peek
+  split
+  · split <;> simp_all
+  · rfl
+
+theorem skipComments_eq (r : Reader) (is : IStream) :
+    skipComments r is = afterTest (is.rest.length + 1) r is := by
+  unfold skipComments afterTest
+  by_cases he : is.eof
+  · simp [skipEarlyEvalsPeek, skipEarly, he, endCh]
+  · simp [skipEarlyEvalsPeek, skipEarly, he, endCh, peek_rest]
+
+theorem afterTest_empty (f : Nat) (r : Reader) (t : List Char) :
+    afterTest f r ⟨'\n' :: t, false, false⟩ = (.ok (), r, ⟨'\n' :: t, false, false⟩) := by
+  simp [afterTest, IStream.peek, IStream.good]
+
+theorem afterTest_eof (f : Nat) (r : Reader) :
+    afterTest (f + 1) r ⟨[], false, false⟩ = (.ok (), r, ⟨[], true, false⟩) := by
+  simp [afterTest, IStream.peek, IStream.good, skipOuterLoop, skipLoop]
+
+theorem afterTest_data (f : Nat) (k : Bool) (line tail : List Char) (c : Char) (l : List Char)
+    (hl : line = c :: l) (hc : c ≠ '#') (hL : NoNL line) (ht : TailOK tail) :
+    afterTest (f + 1) ⟨[], 0, k⟩ ⟨line ++ tail, false, false⟩ = (.ok (), shifted line 0, streamOf line tail) := by
+  have hcn : c ≠ '\n' := hL c (by simp [hl])
+  have hfill := readChunk_fill [] line tail k (by simp) (by simp [hl]) hL ht
+  simp only [List.length_nil, Nat.sub_zero, List.nil_append, Nat.zero_add] at hfill
+  have hlen : 0 < line.length := by simp [hl]
+  have hmin0 : ¬ (min 64 line.length = 0) := by omega
+  have hfront : (line.take 64).getD 0 ' ' = c := by simp [hl]
+  have hpk : (⟨line ++ tail, false, false⟩ : IStream).peek = (some c, ⟨line ++ tail, false, false⟩) := by
+    simp [IStream.peek, IStream.good, hl]
+  simp only [afterTest, Bool.not_false, if_true, hpk, Bool.false_or]
+  simp [hcn, skipOuterLoop, skipLoop, hfill, skipBreak, hmin0, hfront, hc, shifted, streamOf]
+  intro h
+  exfalso; apply hc; simpa [hl] using h
+
+theorem streamOf_nl (M t : List Char) :
+    streamOf M ('\n' :: t) = ⟨M.drop 64 ++ '\n' :: t, false, false⟩ := by simp [streamOf]
+
+theorem skipInner_comment (t : List Char) :
+    ∀ (f : Nat) (M : List Char), NoNL M → (M.drop 64).length + 1 ≤ f →
+      ∃ r2, skipInnerLoop f (shifted M 0) (streamOf M ('\n' :: t)) = (.ok (), r2, ⟨'\n' :: t, false, false⟩) ∧
+        r2.setBufidx 0 = ⟨[], 0, false⟩ := by
+  intro f
+  induction f with
+  | zero => intro M _ hf; omega
+  | succ f ih =>
+    intro M hM hf
+    by_cases h : 64 < M.length
+    · have hm : M.drop 64 ≠ [] := by
+        intro h'; have := List.drop_eq_nil_iff.mp h'; omega
+      have hfill := readChunk_fill [] (M.drop 64) ('\n' :: t) true (by simp) hm (hM.drop 64) (Or.inr ⟨t, rfl⟩)
+      simp only [List.length_nil, Nat.sub_zero, List.nil_append, Nat.zero_add, List.isEmpty_cons,
+        Bool.and_false] at hfill
+      have hlen : 1 ≤ (M.drop 64).length := by
+        rcases hd : M.drop 64 with _ | ⟨a, b⟩
+        · exact absurd hd hm
+        · simp
+      obtain ⟨r2, h1, h2⟩ := ih (M.drop 64) (hM.drop 64) (by simp only [List.length_drop] at hf hlen ⊢; omega)
+      refine ⟨r2, ?_, h2⟩
+      rw [streamOf_nl] at h1 ⊢
+      have hs : (shifted M 0).setBufidx skipInnerBufidx = ⟨[], 0, true⟩ := by
+        simp [shifted, Reader.setBufidx, skipInnerBufidx, h]
+      have hk : (shifted M 0).keep = true := by simp [shifted, h]
+      rw [skipInnerLoop]
+      simp only [skipInner, hk, if_true, hs, hfill]
+      have : (⟨(M.drop 64).take 64, min 64 (M.drop 64).length, decide (64 < (M.drop 64).length)⟩ : Reader) =
+          shifted (M.drop 64) 0 := by simp [shifted]
+      rw [this]
+      exact h1
+    · refine ⟨shifted M 0, ?_, ?_⟩
+      · have hd : M.drop 64 = [] := List.drop_eq_nil_of_le (by omega)
+        rw [skipInnerLoop]
+        simp [skipInner, shifted, h, streamOf, hd]
+      · simp [shifted, Reader.setBufidx, h]
+
+theorem comment_step (b rest : List Char) (k : Bool) (f : Nat) (hb : NoNL b) :
+    afterTest (f + 1) ⟨[], 0, k⟩ ⟨'#' :: b ++ '\n' :: rest, false, false⟩ =
+      afterTest f ⟨[], 0, false⟩ ⟨rest, false, false⟩ := by
+  have hC : NoNL ('#' :: b) := by
+    intro c hc; simp at hc; rcases hc with rfl | hc
+    · decide
+    · exact hb c hc
+  have hfill := readChunk_fill [] ('#' :: b) ('\n' :: rest) k (by simp) (by simp) hC (Or.inr ⟨rest, rfl⟩)
+  simp only [List.length_nil, Nat.sub_zero, List.nil_append, Nat.zero_add, List.isEmpty_cons,
+    Bool.and_false] at hfill
+  have hR : (⟨('#' :: b).take 64, min 64 ('#' :: b).length, decide (64 < ('#' :: b).length)⟩ : Reader) =
+      shifted ('#' :: b) 0 := by simp [shifted]
+  rw [hR, ← streamOf_nl] at hfill
+  obtain ⟨r2, h1, h2⟩ := skipInner_comment rest ((streamOf ('#' :: b) ('\n' :: rest)).rest.length + 1)
+    ('#' :: b) hC (by rw [streamOf_nl]; simp only [List.length_append]; omega)
+  have hnl := nextLine_done ('\n' :: rest) (Or.inr ⟨rest, rfl⟩)
+  simp only [List.isEmpty_cons] at hnl
+  have hpk : (⟨'#' :: b ++ '\n' :: rest, false, false⟩ : IStream).peek =
+      (some '#', ⟨'#' :: b ++ '\n' :: rest, false, false⟩) := by
+    simp [IStream.peek, IStream.good]
+  have hbrk : skipBreak (shifted ('#' :: b) 0).bufidx ((shifted ('#' :: b) 0).s.getD 0 ' ') = false := by
+    simp [skipBreak, shifted]
+  conv_lhs => unfold afterTest
+  simp only [Bool.not_false, if_true, hpk, Bool.false_or]
+  have hne : ((some '#' : Option Char) == some '\n') = false := by decide
+  simp only [hne, Bool.false_eq_true, if_false]
+  rw [skipOuterLoop]
+  simp only [skipLoop, Bool.not_false, if_true, List.cons_append] at hfill ⊢
+  rw [hfill]
+  simp only [hbrk, Bool.false_eq_true, if_false, h1, skipAfterBufidx] 
+  have h2' : r2.setBufidx 0 = ⟨[], 0, false⟩ := h2
+  simp only [h2', hnl]
+  simp [afterTest, skipAgainEvalsPeek, skipAgain, endCh]
+
+theorem comments_skipped (rest : List Char) :
+    ∀ (cs : List (List Char)) (k : Bool) (F : Nat), cs.length + 1 ≤ F → (∀ b ∈ cs, NoNL b) →
+      ∃ k', afterTest F ⟨[], 0, k⟩ ⟨commentText cs ++ rest, false, false⟩ =
+        afterTest (F - cs.length) ⟨[], 0, k'⟩ ⟨rest, false, false⟩ := by
+  intro cs
+  induction cs with
+  | nil => intro k F _ _; exact ⟨k, by simp [commentText]⟩
+  | cons b r ih =>
+    intro k F hF hb
+    obtain ⟨F', rfl⟩ : ∃ F', F = F' + 1 := ⟨F - 1, by simp at hF; omega⟩
+    obtain ⟨k', hk'⟩ := ih false F' (by simp at hF; omega) (fun x hx => hb x (by simp [hx]))
+    refine ⟨k', ?_⟩
+    have := comment_step b (commentText r ++ rest) k F' (hb b (by simp))
+    simp only [commentText, List.cons_append, List.append_assoc] at this ⊢
+    rw [this, hk']
+    congr 1
+    simp
 
 end Alpaqa.Proofs.C17
